@@ -55,6 +55,9 @@ where
     // reference state
     let mut da = DualAvg { mu: f64::NAN, h_bar: 0.0, eps: f64::NAN, eps_bar: 1.0 };
     let mut frozen_bits: Option<u64> = None;
+    // warm-up length in force when the most recent transition ran (a run call that performs no
+    // transition - n_collect + n_discard = 1 - leaves it untouched)
+    let mut nd_of_last_transition: Option<usize> = None;
     let mut first = true;
     let mut adapt_steps = 0u64;
     let mut frozen_steps = 0u64;
@@ -155,7 +158,7 @@ where
             let tol = tol_eps(t.m, &da);
             rep.max("eps_error_over_tol", (t.epsilon - da.eps).abs() / tol);
             if (t.epsilon - da.eps).abs() > tol {
-                let nd_then = if ti == 0 && ri > 0 { plan[ri - 1].1 } else { *n_discard };
+                let nd_then = if ti == 0 { nd_of_last_transition.unwrap_or(*n_discard) } else { *n_discard };
                 let phase = if t.m > 1 && t.m - 1 > nd_then { "frozen" } else { "adapting" };
                 rep.violation(&format!("{sig} step-size-differs-from-the-recursion phase={phase}"), mon, case,
                     detail("eps", json!({"m": t.m, "eps_used": t.epsilon, "reference": da.eps, "tol": tol, "n_discard": n_discard})));
@@ -164,7 +167,7 @@ where
             // frozen phase: bit-identical to the averaged iterate, never changing again
             // (the step size a transition uses was set at the end of the previous transition, which for
             // the first transition of a later run happened under the previous run's warm-up length)
-            let nd_then = if ti == 0 && ri > 0 { plan[ri - 1].1 } else { *n_discard };
+            let nd_then = if ti == 0 { nd_of_last_transition.unwrap_or(*n_discard) } else { *n_discard };
             let was_set_after_warmup = t.m >= 2 && t.m - 1 > nd_then;
             if was_set_after_warmup {
                 let b = t.epsilon.to_bits();
@@ -198,6 +201,9 @@ where
                 frozen_bits = None;
             }
             rep.held();
+        }
+        if !traces.is_empty() {
+            nd_of_last_transition = Some(*n_discard);
         }
         // state after the run
         if !traces.is_empty() {
